@@ -72,6 +72,10 @@ def main(mod, argv=None):
             raise ToolTrouble('no proof jobs generated')
         print('[%s] %d verifier jobs (%s tier), lowering took %.1fs' % (prop, len(jobs), tier, time.time() - t0), flush=True)
         results = run_jobs(jobs, workdir)
+        if '--verbose' in argv or os.environ.get('XV_VERBOSE'):
+            for j, r in zip(jobs, results):
+                print('  job %-60s %-8s t=%6.1fs obligations=%d failed=%d %s' % (j.name, r['status'], r['time'], len(r['obligations']), len(r['failed']),
+                      '; '.join('%s[%s]' % (o['id'], o['class']) for o in r['failed'][:4])), flush=True)
         trouble = [r for r in results if r['status'] == 'trouble']
         # negative jobs (mutation canaries written into the harness set) must be violated
         neg_bad = [r for j, r in zip(jobs, results) if j.kind == 'negative' and r['status'] == 'ok']
